@@ -115,6 +115,13 @@ class Handler:
         if name in ("memcpy-var", "memset-var"):
             p.events.append((name, n, [repr(a) if not is_word(a) else "data" for a in args], I.id))
             return None
+        if name == "tinyjambu_clean" and not is_word(args[0]) and not is_word(args[1]):
+            # wipe of a local temporary (a keystream staging buffer ...): zero bytes from here on; wipes of anything else are not a mode matter
+            ob_, _of = ex.subst(p, args[0]).base()
+            lc = ex.subst(p, args[1]).const()
+            if ob_ is not None and ob_[0] == "alloca" and lc is not None and 0 < lc <= 256:
+                ex.store(p, args[0], [gf2.ZERO] * (8 * lc), lc, None)
+                return None
         raise Broken("mode-level analysis: unexpected call to %s in %s" % (name, ex.f.name))
 
 
